@@ -15,10 +15,10 @@ use surf_n_term::automata::NFA;
 use surf_n_term::decoder::{verif, Decoder, TTYCommandDecoder, TTYEventDecoder, Utf8Decoder};
 use surf_n_term::{TerminalCommand, TerminalEvent};
 
-/// While C02's defects are unfixed the generators must not produce inputs on which the payload
-/// decoders panic or abort (that is C02's finding, not C03's).  Set to false once the `fix:`
-/// commits of C02 are in the tree: the sanitiser below then leaves generated streams untouched.
-const SAFE_MODE: bool = true;
+/// Before C02's `fix:` commits (crate branch ws-c03: 17cbbd3, 74bf110, 909a23c, 14616ff) the payload
+/// decoders panicked / aborted on some inputs (that is C02's finding, not C03's) and the generators
+/// had to stay away from them.  With the fixes in the tree the sanitiser leaves streams untouched.
+const SAFE_MODE: bool = false;
 
 // ------------------------------------------------------------------ tokens
 
@@ -627,7 +627,7 @@ fn piece(rng: &mut Rng, which: usize) -> Vec<u8> {
                 }
             }
         }
-        _ => s.push(rng.byte()),
+        _ => s.push(if rng.chance(1, 2) { rng.byte() } else { 0x80 + rng.below(0x80) as u8 }),
     }
     // truncate an escape sequence: the longer candidate fails to complete
     if s.len() > 2 && rng.chance(1, 5) {
